@@ -796,7 +796,7 @@ func (s *State) extendFunctionEnv(
 		// By definition function parameters are local copies, deref argument values:
 		pval := object.Value(args[paramIdx])
 		needVariable := true
-		if !s.NoReg && pval.Type() == object.INTEGER {
+		if !s.NoReg && pval.Type() == object.INTEGER && env.HasRegisters() {
 			// We will release all these registers just by returning/dropping the env.
 			_, nbody, ok := setupRegister(env, param.Value().Literal(), pval.(object.Integer).Value, newBody)
 			if ok {
@@ -906,7 +906,11 @@ func setupRegister(env *object.Environment, name string, value int64, body ast.N
 		newBody.PrettyPrint(ps)
 		log.LogVf("replaced %d registers - ok = %t: %s", register.Count, ok, out.String())
 	}
-	if !ok || register.Count == 0 {
+	if !ok {
+		env.ReleaseRegister(register) // can't be used for this body, the caller falls back to a regular variable.
+		return register, body, false
+	}
+	if register.Count == 0 {
 		return register, body, ok // original body unchanged.
 	}
 	return register, newBody, ok
@@ -928,16 +932,18 @@ func (s *State) evalForInteger(fe *ast.ForExpression, start *int64, end int64, n
 	var newBody ast.Node
 	var register object.Register
 	newBody = fe.Body
-	if name != "" && !s.NoReg {
+	if name != "" && !s.NoReg && s.env.HasRegisters() {
 		var ok bool
 		register, newBody, ok = setupRegister(s.env, name, int64(startValue), fe.Body)
-		if !ok {
-			return s.Errorf("for loop register %s shouldn't be modified inside the loop", name)
+		if ok {
+			ptr = register.Ptr()
+			// Release on every way out of the loop (normal end, break, return, error, panic).
+			defer s.env.ReleaseRegister(register)
 		}
-		ptr = register.Ptr()
+		// else (postfix on the variable, function literal in the body): use a regular variable.
 	}
 	for i := startValue; i < endValue; i++ {
-		if s.NoReg && name != "" {
+		if ptr == nil && name != "" {
 			s.env.Set(name, object.Integer{Value: int64(i)})
 		}
 		if ptr != nil {
@@ -962,9 +968,6 @@ func (s *State) evalForInteger(fe *ast.ForExpression, start *int64, end int64, n
 		default:
 			lastEval = nextEval
 		}
-	}
-	if ptr != nil {
-		s.env.ReleaseRegister(register)
 	}
 	return lastEval
 }
